@@ -31,8 +31,8 @@ def _sym_like(h, name, x0):
     """array (or scalar) of fresh reals with the shape of x0"""
     a = numpy.asarray(x0, dtype=object)
     if a.ndim == 0:
-        return h.real(name), ()
-    out = numpy.empty(a.shape, dtype=object)
+        return (h.real(name) if h.sym else numpy.float64(h.real(name))), ()
+    out = numpy.empty(a.shape, dtype=object if h.sym else float)
     for i, idx in enumerate(numpy.ndindex(a.shape)):
         out[idx] = h.real(f'{name}_{i}')
     return out, a.shape
